@@ -3,6 +3,8 @@ import Req.Lemmas.CancelMeasure
 The structural invariant of the lifecycle model (C08) and its preservation by every
 environment event and every internal action.
 -/
+set_option linter.unusedSimpArgs false
+set_option linter.unusedVariables false
 namespace Req.Cancel
 
 structure InvH1 (s : St) : Prop where
